@@ -200,19 +200,24 @@ func eventWrapper(w *World) (*ssa.Function, *ssa.Function) {
 	if outer == nil {
 		return nil, nil
 	}
-	// the wrapper is the closure that sends on the event channel and has the Operator signature
+	// the wrapper is the function with the Operator signature that sends on the event channel — a closure of
+	// calAndSetEventNode or of a helper it calls
 	var found *ssa.Function
-	var visit func(fn *ssa.Function)
-	visit = func(fn *ssa.Function) {
-		for _, an := range fn.AnonFuncs {
-			sig := operatorSig(w)
-			if sig != nil && types.Identical(an.Signature, sig) {
-				found = an
+	sig := operatorSig(w)
+	for _, fn := range w.Funcs {
+		if sig == nil || !types.Identical(fn.Signature, sig) {
+			continue
+		}
+		sends := false
+		EachInstr(fn, func(in ssa.Instruction) {
+			if _, ok := in.(*ssa.Send); ok {
+				sends = true
 			}
-			visit(an)
+		})
+		if sends && found == nil {
+			found = fn
 		}
 	}
-	visit(outer)
 	return outer, found
 }
 
